@@ -29,7 +29,7 @@ def run(ctx):
                 if rng.random() < 0.7:
                     reps.append((b, rng.choice([0.01, 0.05, 0.13, 0.4, 1.2, 3.9, 6.0]), rng.choice([1, 1, 2, 3])))
             spas.append(dict(id=sid, name=rng.choice(NAMES), addr=("10.0.0.%d" % (i + 1), 10022), replies=reps))
-        mode = rng.choice(["none", "none", "id", "id_absent", "addr"])
+        mode = rng.choice(["none", "none", "id", "id_absent", "addr", "id+addr", "id+addr"])
         fid = None
         faddr = None
         if mode == "id" and spas:
@@ -38,6 +38,10 @@ def run(ctx):
             fid = "SPA99:zz"
         elif mode == "addr":
             faddr = "10.0.0.1"
+        elif mode == "id+addr":
+            # both filters (how the manager calls the locator); whoever sits at that address answers, possibly a spa with another identifier, possibly first
+            faddr = "10.0.0.1"
+            fid = (rng.choice(spas)["id"].decode() if spas and rng.random() < 0.8 else "SPA99:zz")
         # an early stall longer than one poll interval takes the polls off the 0.1 s grid (no float comparisons on a threshold)
         stalls = [(0.05, rng.choice([0.1137, 0.1291, 0.1733]))] + [(rng.choice([0.25, 0.6, 1.3, 2.1]), rng.choice([0.013, 0.057, 0.12, 0.31])) for _ in range(rng.choice([0, 1, 2, 3]))]
         r = discovery.run_discovery(spas, filt_id=fid, filt_addr=faddr, stalls=stalls, seed=k)
